@@ -195,8 +195,13 @@ def norm_seq(seq):
         if c[0] == 'atom':
             via = tuple(v for v in c[2] if v not in NAME_PRESERVING)
             out.append(('atom', c[1] + ('|' + '>'.join(via) if via else '')))
-        elif c[0] == 'lit':
-            out.append(('lit', c[1]))
+        elif c[0] in ('lit', 'lit*'):
+            if out and out[-1][0] == 'lit':
+                out[-1] = ('lit', out[-1][1] + c[1])
+            else:
+                out.append(('lit', c[1]))
+        elif c[0] == 'joined':
+            continue
         else:
             out.append((c[0], c[1]))
     return out
